@@ -19,7 +19,7 @@ Not decided: median within [min, max] (numeric property of the aggregation).
 import re
 
 from facts import short_name
-from kinds import (rel, comparisons, bool_payload_edges, k1_callers, on_all_success_paths, error_cut,
+from kinds import (exhaustive_loops, rel, comparisons, bool_payload_edges, k1_callers, on_all_success_paths, error_cut,
                    div_before_mul, arith_sites, k2_site_guarded)
 
 CRATES = ["astria_sequencer.lib", "astria_core.lib"]
@@ -241,6 +241,11 @@ def o4(prog, rep):
 
 def o5(prog, rep):
     body = prog.main_body(V + "validate_extended_commit_against_last_commit")
+    exhaustive_loops(rep, "O5", body, r"zip\(", 1, "zipped votes",
+                     "later votes would not be cross-checked", ok_only=True)
+    vb = prog.main_body(V + "validate_vote_extensions")
+    exhaustive_loops(rep, "O2", vb, r"extended_commit_info\.votes", 1, "extended-commit votes",
+                     "later votes would be neither tallied nor signature-checked", ok_only=True)
     cm = comparisons(body)
     need = {
         "round": lambda c: "last_commit.round" in c.a + c.b and "extended_commit_info.round" in c.a + c.b,
